@@ -27,6 +27,8 @@ VALUE_CLASSES = {
     "@dotline": "a\n.b\n..c",
     "@tag": ":is",
     "@space": " padded ",
+    "@mlshape": "text:\nlooks like a literal\n.",
+    "@mlinject": "text:\nx\n.\ndiscard;\n.",
 }
 
 
